@@ -231,10 +231,10 @@ def _apply_op(m, op, operand=None):
         new = m.clone(entries=ent, items=m.items and m.listable)
         new.bykey = m.bykey and m.listable and new.labelstate == 'unique'
         return new
-    if k == 'concat3':
+    if k in ('concat3', 'concat_aba'):
         # ds.concatenate(mid, last): two extra parts (the middle one is empty)
         return apply(apply(m, ('concat', None), operand[0]), ('concat', None), operand[1])
-    if k == 'intersperse3':
+    if k in ('intersperse3', 'intersperse_aba'):
         a_, b_ = operand
         _need(m.sized and m.finite, 'intersperse needs sized inputs')
         _need(m.n > 0, 'intersperse needs non-empty inputs')
@@ -317,6 +317,18 @@ def _apply_op(m, op, operand=None):
                  indexable=m.indexable and o.indexable,
                  copyable=m.copyable and o.copyable,
                  ordered=m.ordered and o.ordered)
+    if k == 'single':
+        # a combining function / method called with ONE dataset: zip gives
+        # 1-tuples, concatenate and intersperse give the dataset itself, key_zip
+        # is refused
+        what = op[1]
+        if what == 'key_zip':
+            raise Unsupported('key_zip needs at least two datasets')
+        if what == 'zip':
+            _need(m.sized and m.finite, 'zip needs sized inputs')
+            return M([(None, (v,)) for _, v in m.entries], indexable=m.indexable,
+                     copyable=m.copyable, ordered=m.ordered)
+        return m.clone()
     if k == 'key_zip':
         o = operand
         _need(m.finite and o.finite, 'key_zip over infinite data')
@@ -512,7 +524,7 @@ def apply(m, op, operand=None):
         new.findexable = fi and m.labelstate == 'unique' and m.keysok
     elif k in ('concat', 'intersperse', 'zip', 'key_zip'):
         new.findexable = fi and getattr(operand, 'findexable', operand.indexable)
-    elif k == 'concat3' or k in ('intersperse3', 'zip3', 'key_zip3'):
+    elif k in ('concat3', 'concat_aba', 'intersperse_aba', 'intersperse3', 'zip3', 'key_zip3'):
         new.findexable = fi and all(getattr(o, 'findexable', o.indexable) for o in operand)
     elif k in NOT_FROZEN_INDEXABLE:
         new.findexable = False
@@ -527,6 +539,10 @@ EMPTY_DICT = {'src': ('dict', 0, 'pickle', 'e', 200), 'ops': []}
 EMPTY_LIST = {'src': ('list', 0, 'pickle', 'e', 200), 'ops': []}
 LAST_DICT = {'src': ('dict', 2, 'pickle', 'r', 300), 'ops': []}
 LAST_LIST = {'src': ('list', 2, 'pickle', 'r', 300), 'ops': []}
+
+
+ABA_OTHER = {'dict': {'src': ('dict', 2, 'pickle', 'q', 100), 'ops': []},
+             'list': {'src': ('list', 2, 'pickle', 'q', 100), 'ops': []}}
 
 
 def concat3_operands(kind, form='method'):
@@ -570,6 +586,10 @@ def run(prog, upto=None):
                 operand = run(spec)
         elif op[0] == 'concat3':
             operand = tuple(run(x) for x in concat3_operands(op[1], op[2]))
+        elif op[0] in ('concat_aba', 'intersperse_aba'):
+            # ds.concatenate(other, ds.map(z)): first and last part share keys,
+            # the part between them has other keys
+            operand = (run(ABA_OTHER[op[1]]), apply(m, ('map', 'z')))
         elif op[0] in NARY:
             operand = nary_operands(m, op)
         m = apply(m, op, operand)
